@@ -215,6 +215,18 @@ def run(ctx):
                     res.count("slots_validated")
                     if msgs:
                         res.violation("schema-slot-does-not-validate", case, [(mm["message"], mm["error"][:120]) for mm in msgs[:3]], "zero messages")
+                    elif pos == "first":
+                        # ... and as the command line loads it: positions and comments recorded (hidden keys every block schema admits)
+                        try:
+                            db = eng.loads(text, include_position=True, include_comments=True)
+                            mb = eng.validator.validate(db, schema_name=chain[0])
+                            res.count("slots_validated_with_bookkeeping")
+                            if mb:
+                                res.violation("schema-slot-does-not-validate", dict(case, loaded="include_position + include_comments"),
+                                              [(mm["message"], mm["error"][:120]) for mm in mb[:3]], "zero messages")
+                        except Exception as ex:
+                            res.violation("schema-slot-validate-raises", dict(case, loaded="include_position + include_comments"),
+                                          f"{type(ex).__name__}: {str(ex)[:200]}", None)
                     if len(res.samples) < 2 and len(chain) == 3 and a.kind not in ("string", "number"):
                         res.sample({"slot": slot, "position": pos, "context": ">".join(chain), "text": text})
     # ---- (4) defaults and create()
